@@ -29,6 +29,7 @@ func init() {
 			"C35.R5 cut (= C13.R8): values that end in a character outside the BMP decode (surrogate bounds test)",
 			"C35.R6 MPT: finalizeKeywords reaches the XMP clean-up on every successful path when the catalog has XMP metadata",
 			"C35.R7 like-with-like: in-memory Info dictionary keys are accessed as they are, not name-encoded",
+			"C35.R8 MPT: a name-tree node's own dictionary is deep-deleted only after its Kids entry was taken out",
 			"C35.R4 shape: the name-tree writer does not deepen a path by splitting a leaf in place (the reader refuses deep trees) — violated on the tree, known finding",
 		},
 		Assumptions: []string{"the parser decodes names (model.parseName calls types.DecodeName); listing reads the fields validation fills"},
@@ -51,6 +52,8 @@ func runC35(c *Ctx) {
 	checkKeywordsXMPCleanup(c)
 	r.MinInst["C35.R7"] = 2
 	checkInfoKeysNotEncodedForAccess(c)
+	r.MinInst["C35.R8"] = 1
+	checkNameTreeNodeDeletion(c)
 	files := []string{"pkg/pdfcpu/validate/info.go", "pkg/pdfcpu/property.go", "pkg/pdfcpu/keyword.go"}
 	inFiles := func(fn *ssa.Function) bool {
 		f := p.File(fn.Pos())
@@ -481,5 +484,114 @@ func checkInfoKeysNotEncodedForAccess(c *Ctx) {
 	}
 	if n == 0 {
 		r.Bad("C35.R7", "pkg/pdfcpu/property.go", "anchor", "", "UNRESOLVED-ANCHOR: no dictionary access with a computed key in property.go / keyword.go")
+	}
+}
+
+// R8: removing a name-tree entry may collapse a node. xRefTable.DeleteObject is a DEEP delete: it frees everything the
+// object refers to. A node's dictionary D still lists the node's kids under /Kids, so wherever a Node method hands its
+// own receiver's D to DeleteObject while kids survive, the Kids entry has to be taken out of that dictionary first:
+// every such call is dominated by a Delete("Kids") on the same field. (A kid that was just emptied is a leaf; its D has
+// no Kids.) Violated on the pinned tree — removing attachments one by one freed the remaining ones — repaired.
+func checkNameTreeNodeDeletion(c *Ctx) {
+	p, r := c.P, c.R
+	n := 0
+	for _, fn := range p.Funcs {
+		if !isSubject(fn) || !strings.HasSuffix(p.File(fn.Pos()), "pkg/pdfcpu/model/nameTree.go") || fn.Signature.Recv() == nil || len(fn.Params) == 0 {
+			continue
+		}
+		recv := fn.Params[0]
+		isRecvD := func(v ssa.Value) bool {
+			for {
+				switch x := v.(type) {
+				case *ssa.MakeInterface:
+					v = x.X
+					continue
+				case *ssa.UnOp:
+					if x.Op == token.MUL {
+						if fa, ok := x.X.(*ssa.FieldAddr); ok && fa.X == ssa.Value(recv) {
+							f := structField(fa.X.Type(), fa.Field)
+							return f != nil && f.Name() == "D"
+						}
+					}
+				}
+				return false
+			}
+		}
+		// blocks in which Kids is taken out of the receiver's D
+		strips := map[*ssa.BasicBlock]bool{}
+		eachInstr(fn, func(b *ssa.BasicBlock, _ int, i ssa.Instruction) {
+			call, ok := i.(*ssa.Call)
+			if !ok {
+				return
+			}
+			if bt, ok := call.Call.Value.(*ssa.Builtin); ok && bt.Name() == "delete" && len(call.Call.Args) == 2 && isRecvD(call.Call.Args[0]) {
+				if k, ok := constString(call.Call.Args[1]); ok && k == "Kids" {
+					strips[b] = true
+				}
+				return
+			}
+			if f := staticCallee(call); f != nil && f.Name() == "Delete" && len(call.Call.Args) == 2 && isRecvD(call.Call.Args[0]) {
+				if k, ok := constString(call.Call.Args[1]); ok && k == "Kids" {
+					strips[b] = true
+				}
+			}
+		})
+		k := 0
+		eachInstr(fn, func(b *ssa.BasicBlock, idx int, i ssa.Instruction) {
+			call, ok := i.(*ssa.Call)
+			if !ok {
+				return
+			}
+			f := staticCallee(call)
+			if f == nil || f.Name() != "DeleteObject" || len(call.Call.Args) != 2 || !isRecvD(call.Call.Args[1]) {
+				return
+			}
+			k++
+			n++
+			construct := fmt.Sprintf("deep delete of the node's own dictionary#%d", k)
+			// must-pass-through: the call is not reachable from the entry without a strip, taking the edge on which the
+			// dictionary is nil as satisfied (nothing to delete)
+			var nilEdges []Edge
+			eachInstr(fn, func(_ *ssa.BasicBlock, _ int, in ssa.Instruction) {
+				bo, ok := in.(*ssa.BinOp)
+				if !ok || (bo.Op != token.EQL && bo.Op != token.NEQ) {
+					return
+				}
+				if (isNilConst(bo.Y) && isRecvD(bo.X)) || (isNilConst(bo.X) && isRecvD(bo.Y)) {
+					nilEdges = append(nilEdges, condEdges(bo, bo.Op == token.EQL)...)
+				}
+			})
+			free := map[*ssa.BasicBlock]bool{fn.Blocks[0]: true}
+			work := []*ssa.BasicBlock{fn.Blocks[0]}
+			for len(work) > 0 {
+				x := work[len(work)-1]
+				work = work[:len(work)-1]
+				if strips[x] && x != b {
+					continue
+				}
+				for si, sx := range x.Succs {
+					skip := false
+					for _, e := range nilEdges {
+						if e.From == x && e.Succ == si {
+							skip = true
+						}
+					}
+					if skip || free[sx] {
+						continue
+					}
+					free[sx] = true
+					work = append(work, sx)
+				}
+			}
+			okSite := !free[b] || strips[b]
+			if okSite {
+				r.OK("C35.R8", FuncID(fn), construct, p.Pos(call.Pos()), "the Kids entry is taken out of the dictionary first", true)
+			} else {
+				r.Bad("C35.R8", FuncID(fn), construct, p.Pos(call.Pos()), "a node's dictionary is deep-deleted while it still lists the node's kids: the subtree of the kid that is being kept — the values of all remaining names, e.g. the file specifications of the other attachments — is freed as well and the written document does not validate")
+			}
+		})
+	}
+	if n == 0 {
+		r.Bad("C35.R8", "pkg/pdfcpu/model/nameTree.go", "anchor", "", "UNRESOLVED-ANCHOR: no deep delete of a node's own dictionary found")
 	}
 }
